@@ -68,7 +68,7 @@ def objective_value(spec, o, P):
 
 def nonlinear(spec):
     """the objective is a non-linear integer term (linear / polynomial cost functions integrate to products of unknowns)"""
-    return any((w.get("cost") or {}).get("kind") in ("linear", "poly", "general") for w in spec.get("workers", [])) and \
+    return any((w.get("cost") or {}).get("kind") in ("linear", "poly") for w in spec.get("workers", [])) and \
         any(o["kind"] == "ResourceCost" or o["kind"].endswith("Indicator") for o in spec.get("objectives", []))
 
 
